@@ -18,6 +18,7 @@ package main
 
 import (
 	"fmt"
+	"math"
 	"math/rand"
 	"path/filepath"
 	"sort"
@@ -59,6 +60,47 @@ func replyGeo(rng *rand.Rand) string {
 	return fmt.Sprintf(`{"type":"Point","coordinates":[%v,%v]}`, x, y)
 }
 
+// a directed dataset: points around the east / west extremes of a circle (and the given extra points), or,
+// for a tiny circle, the centre and points a few centimetres away
+type replyDirected struct {
+	lat, lon, meters float64
+	tiny             bool
+	extra            [][2]float64
+}
+
+func (d replyDirected) point(rng *rand.Rand, i int) string {
+	if i < len(d.extra) {
+		return fmt.Sprintf(`{"type":"Point","coordinates":[%v,%v]}`, d.extra[i][1], d.extra[i][0])
+	}
+	if d.tiny {
+		if i%7 == 0 {
+			return fmt.Sprintf(`{"type":"Point","coordinates":[%v,%v]}`, d.lon, d.lat)
+		}
+		return fmt.Sprintf(`{"type":"Point","coordinates":[%v,%v]}`, d.lon+(rng.Float64()-0.5)*1e-4*d.meters, d.lat+(rng.Float64()-0.5)*1e-4*d.meters)
+	}
+	// angular radius in degrees; the longitude extent at the centre's latitude is about deg / cos(lat)
+	deg := d.meters / 6371000 * 180 / math.Pi
+	ext := deg / cosDeg(d.lat)
+	side := float64(1 - 2*(i%2))
+	lon := d.lon + side*ext*(0.93+0.1*rng.Float64())
+	lat := d.lat + (rng.Float64()*2-0.6)*deg*0.35*sign(d.lat)
+	if lon > 180 {
+		lon -= 360
+	}
+	if lon < -180 {
+		lon += 360
+	}
+	return fmt.Sprintf(`{"type":"Point","coordinates":[%v,%v]}`, lon, lat)
+}
+
+func cosDeg(d float64) float64 { return math.Cos(d * math.Pi / 180) }
+func sign(x float64) float64 {
+	if x < 0 {
+		return -1
+	}
+	return 1
+}
+
 func replyInPackage(r *hx.Result, cfg hx.Config, rng *rand.Rand) {
 	drv, err := model.Start("cursor")
 	if err != nil {
@@ -71,12 +113,32 @@ func replyInPackage(r *hx.Result, cfg hx.Config, rng *rand.Rand) {
 		rounds, queries = 150, 40
 	}
 	now := time.Now().UnixNano()
-	for round := 0; round < rounds; round++ {
+	// directed rounds first (quick tier too): points in the east / west slivers of large circles, where the
+	// bounding box of the circle's polygon approximation is narrower than the haversine disc (finding
+	// C02-circle-search-rect; witness SET k o014 POINT 19.6 17.7, WITHIN k IDS CIRCLE 18 -1 1977520), and
+	// tiny circles around stored points
+	directed := []replyDirected{
+		{lat: 18, lon: -1, meters: 1977520, extra: [][2]float64{{19.6, 17.7}}},
+		{lat: -35, lon: 120, meters: 3.1e6},
+		{lat: 60, lon: 10, meters: 1.2e6},
+		{lat: 0, lon: 175, meters: 2.5e6},
+		{lat: 45, lon: -100, meters: 0.25, tiny: true},
+		{lat: 10, lon: 20, meters: 3, tiny: true},
+	}
+	for round := -len(directed); round < rounds; round++ {
 		env := verifapi.NewAreaEnv()
 		var objs []replyObj
 		n := 5 + rng.Intn(60)
+		var dir *replyDirected
+		if round < 0 {
+			dir = &directed[round+len(directed)]
+			n = 70
+		}
 		for i := 0; i < n; i++ {
 			o := replyObj{ID: fmt.Sprintf("o%03d", i), JSON: replyGeo(rng)}
+			if dir != nil {
+				o.JSON = dir.point(rng, i)
+			}
 			g, ok := verifapi.AreaBuildObject(env, o.JSON)
 			if !ok {
 				panic("reply: generated object does not parse: " + o.JSON)
@@ -97,6 +159,9 @@ func replyInPackage(r *hx.Result, cfg hx.Config, rng *rand.Rand) {
 		for qi := 0; qi < queries; qi++ {
 			cmd := []string{"within", "intersects"}[rng.Intn(2)]
 			area := replyArea(rng)
+			if dir != nil {
+				area = []string{"CIRCLE", fmt.Sprint(dir.lat), fmt.Sprint(dir.lon), strconv.FormatFloat(dir.meters*(1+float64(qi%5-2)/400), 'f', -1, 64)}
+			}
 			limit := 100000
 			if rng.Intn(3) == 0 {
 				limit = 1 + rng.Intn(n)
@@ -123,6 +188,9 @@ func replyInPackage(r *hx.Result, cfg hx.Config, rng *rand.Rand) {
 			cursor, got, e := env.SearchIDs(cmd, "fleet", append([]string{"LIMIT", strconv.Itoa(limit), "IDS"}, area...))
 			c := map[string]interface{}{"objects": objs, "cmd": cmd, "limit": limit, "area": area}
 			r.Dist("reply:in-package")
+			if dir != nil {
+				r.Dist("reply:in-package-directed-circle")
+			}
 			if pastHit {
 				r.Dist("reply:in-package-past-deadline-hit")
 			}
@@ -136,6 +204,9 @@ func replyInPackage(r *hx.Result, cfg hx.Config, rng *rand.Rand) {
 			if limit > len(want) {
 				if lost := diff(want, got); len(lost) > 0 {
 					sig := "reply-loses"
+					if dir != nil {
+						sig = "reply-loses-circle-sliver"
+					}
 					for _, id := range lost {
 						for _, o := range objs {
 							if o.ID == id && o.Ex == "past" {
